@@ -103,7 +103,9 @@ def world_job(job):
         seen_rules = set()
         for i, sc in enumerate(scenarios):
             hist = mod.execute(w, sc)
+            bad = _bad_returns()
             viol, probes = mod.judge(spec, sc, hist)
+            viol = bad + list(viol)
             res["runs"] += 1
             d = R.digest(hist)
             res["digests"].append(d)
@@ -118,6 +120,9 @@ def world_job(job):
             res["interleavings"].add(R.digest(sh["interleaving"])[:16])
             for k, v in sh.get("faults", {}).items():
                 res["faults"][k] = res["faults"].get(k, 0) + v
+            ne = sum(1 for e in hist if e["k"] == "request_object_edited_in_place")
+            if ne:
+                res["faults"]["caller_edits_request_object_in_place"] = res["faults"].get("caller_edits_request_object_in_place", 0) + ne
             for k, v in probes.items():
                 res["probes"][k] = res["probes"].get(k, 0) + v
             if hist:
@@ -136,6 +141,9 @@ def world_job(job):
                     v["scenario"] = sc
                     v["history"] = hist
                     v["decoy_spec"] = decoy_spec
+                    # runs of one world share the process (imported library, class-level state of the emitted code):
+                    # when the failure needs EARLIER RUNS of the world, the replay must carry them
+                    v["prefix"] = scenarios[:i]
                     res["violations"].append(v)
                 if len(seen_rules) >= 3:
                     break
@@ -143,6 +151,15 @@ def world_job(job):
         w.close()
     res["wall_s"] = time.perf_counter() - t0
     return res
+
+
+def _bad_returns():
+    from . import engine
+    bad = engine.take_bad_returns()
+    if not bad:
+        return []
+    return [{"rule": "not_a_message", "op": None,
+             "msg": f"a client method handed the caller an object that is no message: {sorted(set(bad))[:3]}"}]
 
 
 def _trim_hist(hist, n=40):
@@ -190,8 +207,13 @@ def replay_job(job):
     try:
         if job.get("scenario") is None:
             return {"violations": [], "digest": None}
+        for psc in job.get("prefix_scenarios") or ():
+            mod.execute(w, psc)          # earlier runs of the same world (same process, same imported library)
+            _bad_returns()
         hist = mod.execute(w, job["scenario"])
+        bad = _bad_returns()
         viol, _ = mod.judge(job["spec"], job["scenario"], hist)
+        viol = bad + list(viol)
         return {"violations": viol, "digest": R.digest(hist), "history": hist}
     finally:
         w.close()
@@ -431,7 +453,7 @@ def report_violations(prop_id, mod, seed, args, viols, t0, agg, pre, st=None):
                 print(f"KNOWN-FINDING: property={prop_id} {kf0['description']}")
             continue
         if not args.no_minimize:
-            spec, sc, info = minimize.minimise(prop_id, mod, spec, sc, rule, decoy=v.get("decoy_spec"))
+            spec, sc, info = minimize.minimise(prop_id, mod, spec, sc, rule, decoy=v.get("decoy_spec"), prefix=v.get("prefix"))
             if v.get("decoy_spec") is not None and info.get("needs_decoy") is False:
                 v["decoy_spec"] = None
         else:
@@ -448,6 +470,7 @@ def report_violations(prop_id, mod, seed, args, viols, t0, agg, pre, st=None):
         rp = {"property": prop_id, "rule": rule, "signature": sig, "seed": seed, "world_seed": v.get("world_seed"),
               "message": v.get("msg"), "op": v.get("op"), "spec": spec, "scenario": sc, "minimisation": info,
               "decoy_spec": v.get("decoy_spec"),
+              "prefix_scenarios": info.get("prefix_scenarios") if info.get("minimised") is not False else (v.get("prefix") or None),
               "history": v.get("history") if info.get("minimised") is False else info.get("history")}
         name = f"{prop_id}-{seed}-{R.digest([spec, sc, rule])[:8]}.json"
         path = os.path.join(VERIF, "out", "replays", name)
@@ -485,8 +508,8 @@ def replay(prop_id, mod, path):
         rp = json.load(f)
     warm()
     job = {"prop": prop_id, "spec": rp["spec"], "scenario": rp.get("scenario"), "rule": rp.get("rule", ""),
-           "decoy_spec": rp.get("decoy_spec")}
-    _, st, pay = runner.run_one(replay_job, job, wall=120)
+           "decoy_spec": rp.get("decoy_spec"), "prefix_scenarios": rp.get("prefix_scenarios")}
+    _, st, pay = runner.run_one(replay_job, job, wall=300 if rp.get("prefix_scenarios") else 120)
     if st != "ok":
         print(f"HARNESS-ERROR property={prop_id}: replay {st}: {str(pay)[-2000:]}")
         return 2
